@@ -24,7 +24,7 @@ RULE = ('tables of 2-16 rows (x dyadic floats, y small ints, g/h few keys in iid
         'x {column, column list, Window series, streaming series}; non-trivial = compared after >= 2 non-empty batches; '
         'distinct by sha1(case)')
 REQUIRED = ['cmp_window_n', 'cmp_window_t', 'cmp_window_groupby_col_n', 'cmp_window_groupby_ser_n',
-            'cmp_window_groupby_col_t', 'cmp_window_groupby_ser_t', 'window_group_keys_checked',
+            'cmp_window_groupby_col_t', 'cmp_window_groupby_ser_t', 'window_group_keys_checked', 'window_group_key_left', 'window_group_key_reentered',
             'cmp_after_empty_first_batch', 'cmp_with_nan', 'cmp_after_empty_batch', 'cmp_on_series', 'cmp_on_frame']
 ASSUMPTIONS = ['pandas %s is the reference; x values are multiples of 1/4 so adding and subtracting rows is exact' % E.pd.__version__,
                'time windows are multiples of the 1 s index grid']
@@ -41,7 +41,7 @@ def plan(tier):
 
 
 def n_tables(tier):
-    return 80 if tier == 'thorough' else 12
+    return 60 if tier == 'thorough' else 12
 
 
 def gen_window_op(rng, timed):
